@@ -251,33 +251,36 @@ def register(GROUPS, c2g, incs, REPO, HERE, STRUCTS, Group):
         def body(F):
             return [c for c in F["inner"] if c.get("kind") == "CompoundStmt"][0]
 
-        def whole(F, gname, outputs, init=None, drop_return=False):
-            """EVERY statement of the function body, as a function of the locations it reads"""
+        def whole(F, gname, params, outputs, init=None, drop_return=False):
+            """EVERY statement of the function body, as a function of the locations it reads (params fixes the order of the
+            expected ones, so that reordering statements does not permute the arguments; any further location read is appended)"""
             st = [c for c in body(F).get("inner", []) if isinstance(c, dict)]
             if drop_return and st and st[-1].get("kind") == "ReturnStmt":
                 st = st[:-1]
             st = [y for x in st for y in rw_stmt(x, F["name"])]
-            return c2g.translate_block(st, gname, [], outputs, fname=F["name"], free_params=True, init=init)
+            return c2g.translate_block(st, gname, list(params), outputs, fname=F["name"], free_params=True, init=init)
 
         # 1. the setters: every field they assign, nothing else (the whole body is translated)
-        t, i = whole(fn("sc_notify_nary_set_widths"), "cfg_set_widths", ["notify_data_nary_ntop", "notify_data_nary_nint", "notify_data_nary_nbot"])
+        t, i = whole(fn("sc_notify_nary_set_widths"), "cfg_set_widths", ["ntop", "nint", "nbot"], ["notify_data_nary_ntop", "notify_data_nary_nint", "notify_data_nary_nbot"])
         g.add(t, i)
-        t, i = whole(fn("sc_notify_ranges_set_num_ranges"), "cfg_set_num_ranges", ["notify_data_ranges_num_ranges"])
+        t, i = whole(fn("sc_notify_ranges_set_num_ranges"), "cfg_set_num_ranges", ["num_ranges"], ["notify_data_ranges_num_ranges"])
         g.add(t, i)
-        t, i = whole(fn("sc_notify_set_eager_threshold"), "cfg_set_eager_threshold", ["notify_eager_threshold"])
+        t, i = whole(fn("sc_notify_set_eager_threshold"), "cfg_set_eager_threshold", ["thresh"], ["notify_eager_threshold"])
         g.add(t, i)
-        t, i = whole(fn("sc_notify_superset_set_callback"), "cfg_set_callback", ["notify_data_superset_compute_superset", "notify_data_superset_ctx"])
+        t, i = whole(fn("sc_notify_superset_set_callback"), "cfg_set_callback", ["compute_superset", "ctx"], ["notify_data_superset_compute_superset", "notify_data_superset_ctx"])
         g.add(t, i)
         # 2. a type change: new type, which initialisation runs (markers called_*), abort marker
-        t, i = whole(fn("sc_notify_set_type"), "cfg_set_type", ["notify_type", "called_nary_init", "called_ranges_init", "aborted"],
+        t, i = whole(fn("sc_notify_set_type"), "cfg_set_type", ["notify_type", "in_type", "sc_notify_type_default"], ["notify_type", "called_nary_init", "called_ranges_init", "aborted"],
                      init={"called_nary_init": "0", "called_ranges_init": "0", "aborted": "0"}, drop_return=True)
         g.add(t, i)
         # the initialisation of the n-ary data: communicator size and rank, then set_widths with the three defaults
         t, i = whole(fn("sc_notify_nary_init"), "cfg_nary_init",
+                     ["notify_mpicomm", "comm_size", "comm_rank", "sc_notify_nary_ntop_default", "sc_notify_nary_nint_default", "sc_notify_nary_nbot_default"],
                      ["notify_data_nary_mpicomm", "notify_data_nary_mpisize", "notify_data_nary_mpirank", "called_set_widths", "set_widths_arg1", "set_widths_arg2", "set_widths_arg3"],
                      init={"called_set_widths": "0"})
         g.add(t, i)
-        t, i = whole(fn("sc_notify_ranges_init"), "cfg_ranges_init", ["notify_data_ranges_num_ranges", "notify_data_ranges_package_id"])
+        t, i = whole(fn("sc_notify_ranges_init"), "cfg_ranges_init", ["sc_notify_ranges_num_ranges_default", "sc_package_id"],
+                     ["notify_data_ranges_num_ranges", "notify_data_ranges_package_id"])
         g.add(t, i)
         # 3. where a round reads its parameters.  n-ary: the local copy `snary = notify->data.nary` and the five reads from it
         F = fn("sc_notify_payload_nary")
@@ -294,14 +297,14 @@ def register(GROUPS, c2g, incs, REPO, HERE, STRUCTS, Group):
         if not ok:
             raise c2g.Unsupported("sc_notify_payload_nary: the context of the recursion is no longer the copy `snary = notify->data.nary` taken at the call")
         st = c2g.select_between(F, src, r"mpisize = nary->mpisize;", r"num_receivers = \(int\) receivers->elem_count;")
-        t, i = c2g.translate_block(st, "cfg_nary_read", [], ["mpisize", "mpirank", "ntop", "nint", "nbot"], fname="sc_notify_payload_nary", free_params=True)
+        t, i = c2g.translate_block(st, "cfg_nary_read", ["nary_mpisize", "nary_mpirank", "nary_ntop", "nary_nint", "nary_nbot"], ["mpisize", "mpirank", "ntop", "nint", "nbot"], fname="sc_notify_payload_nary", free_params=True)
         g.add(t, i)
         # the eager test of the dispatcher
         F = fn("sc_notify_payload")
         st = c2g.select_between(F, src, r"if \(in_payload && in_payload->elem_size <= notify->eager_threshold\) \{", r"switch \(type\) \{")
         st = [x for x in st if x.get("kind") == "IfStmt"]
         cond = st[0]["inner"][0]
-        t, i = c2g.translate_block([assign("eager", cond)], "cfg_eager", [], ["eager"], fname="sc_notify_payload", free_params=True)
+        t, i = c2g.translate_block([assign("eager", cond)], "cfg_eager", ["in_payload", "in_payload_elem_size", "notify_eager_threshold"], ["eager"], fname="sc_notify_payload", free_params=True)
         g.add(t, i)
         # 4. footprints on the notify object: what every round function reads / writes / lets escape of *notify (and of the local
         #    context *nary in the n-ary functions).  stats / flop (timing) are ignored.
